@@ -343,6 +343,12 @@ def eval_proc(ctx):
         with ThreadPoolExecutor(max_workers=8) as ex:
             results = list(ex.map(lambda a: run_proc_case(ctx, a[0], a[1], d), list(enumerate(cases))))
         specv = []
+        for k, (c, r) in enumerate(zip(cases, results)):
+            if r["hung"]:   # only a reproducible non-completion counts (shared, loaded machine)
+                again = [run_proc_case(ctx, 1000 + 2 * k + i, c, d) for i in range(2)]
+                if all(not a["hung"] for a in again):
+                    results[k] = again[-1]
+                    ctx.notes.append("process case %d stalled once and completed in two repetitions" % k)
         for c, r in zip(cases, results):
             for why, known in judge_proc(c, r):
                 v = {"input": {"case": c, "script": r["script"]}, "why": why}
